@@ -54,6 +54,32 @@ func init() {
 			return c16Control(cf)
 		})
 	})
+	// a[0] is parsed first and its result held, then a[1]: the answer for a[1] must not depend on the earlier call, and
+	// the held result must stay what it was
+	register("ParseControlFileAfter", func(a []string) string {
+		first, err0 := pgdump.ParseControlFile(unhex(a[0]))
+		r0 := ""
+		if err0 == nil && first != nil {
+			r0 = c16Control(first)
+		}
+		out := withBuf(a[1], "", func(b []byte) string {
+			cf, err := pgdump.ParseControlFile(b)
+			if err != nil {
+				if strings.HasPrefix(err.Error(), "control file too small") {
+					return "err:too_small"
+				}
+				return "err:other"
+			}
+			if cf == nil {
+				return "nil"
+			}
+			return c16Control(cf)
+		})
+		if err0 == nil && first != nil && c16Control(first) != r0 {
+			return "SHARED-STATE:earlier result rewritten"
+		}
+		return out
+	})
 	register("formatLSN", func(a []string) string {
 		lsn, _ := strconv.ParseUint(a[0], 10, 64)
 		return cStr(pgdump.VerifFormatLSN(lsn))
